@@ -275,3 +275,25 @@ Print Assumptions C04_probit_forward_inverse.
 Print Assumptions C04_probit_forward_inverse_eps0.
 Print Assumptions C04_probit_inverse_inside.
 Print Assumptions C04_probit_fit.
+
+(* ------------------------------------------------------------------------------------------------------ *)
+(* COMPOSITE                                                                                              *)
+(* ------------------------------------------------------------------------------------------------------ *)
+From AV Require Import Gen.Composite Proofs.C04composite.
+
+(* any on/off combination of stages (periodic / bounded / affine, each a bijection on its domain with inverse
+   log-Jacobian = - forward log-Jacobian): inverse(forward x) = x and the accumulated inverse log-Jacobian is
+   minus the accumulated forward one — by induction over the stage list (chain rule => sums) *)
+Theorem C04_composite : forall (Row : Type) (l : list (stage_impl Row)),
+  List.Forall (stage_ok Row) l -> forall x, comp_dom Row l x ->
+  fst (comp_inverse Row l (fst (comp_forward Row l x))) = x
+  /\ snd (comp_inverse Row l (fst (comp_forward Row l x))) = - snd (comp_forward Row l x).
+Proof. exact composite_roundtrip. Qed.
+
+(* the stage order the code uses (read from CompositeTransform's method bodies): inverse = forward reversed,
+   fit = forward, log-Jacobians accumulated by addition *)
+Theorem C04_composite_order : inverse_order = rev forward_order /\ fit_order = forward_order /\ accumulates_by_addition = true.
+Proof. exact composite_orders. Qed.
+
+Print Assumptions C04_composite.
+Print Assumptions C04_composite_order.
